@@ -275,6 +275,10 @@ pub fn faults(xml: &str, doc: &Doc) -> Vec<Fault> {
       }
       if a.name == "href" {
         fs.push(Fault { kind: "href:missing".into(), at: aat.clone(), edits: vec![(a.val_start, a.val_end, "#_no_such_element_".into())] });
+        // references that are not of the form `#id`: other shapes of URI references, well-formed and not
+        for odd in [":alfa", "::", "1:b", "a:b", "#a#b", "%", "a b", "http://[", "", "//host/path#frag", "?q#", "urn:x:y", "a/b:c", "./:a"] {
+          fs.push(Fault { kind: "href:odd".into(), at: aat.clone(), edits: vec![(a.val_start, a.val_end, odd.to_string())] });
+        }
         // ancestors that carry an id: the nearest DRG element is "its own" element
         let mut anc = e.parent;
         let mut own_done = false;
